@@ -4,6 +4,7 @@ import (
 	"fmt"
 	"sort"
 	"strings"
+	"syscall"
 	"testing"
 	"time"
 
@@ -341,12 +342,33 @@ func runC19(t *testing.T, tape *sim.Tape, tier string) *Outcome {
 				cl.settle(4000)
 				o.stat("failed_start_before_stop", 1)
 			}
+			// listener faults before Stop: an accept loop that has ended on its own (Accept failed: descriptor
+			// exhaustion) and has closed its listener, or a listener whose close reports an error. Whatever Stop
+			// returns then, the connections are released
+			listenerFault := ""
+			switch tape.Draw(8, "listener-fault") {
+			case 5, 6:
+				which := tape.Draw(2, "which-listener")
+				if l := cl.N.Bound([]string{plainAddr, tlsAddr}[which]); l != nil {
+					l.FailNextAccept(syscall.EMFILE)
+					cl.settle(4000)
+					listenerFault = "accept-failed:" + []string{"plain", "tls"}[which]
+					o.stat("stop_after_an_accept_loop_died_of_an_accept_error", 1)
+				}
+			case 7:
+				which := tape.Draw(2, "which-listener")
+				if l := cl.N.Bound([]string{plainAddr, tlsAddr}[which]); l != nil {
+					l.CloseErr = syscall.EIO
+					listenerFault = "close-error:" + []string{"plain", "tls"}[which]
+					o.stat("stop_with_a_listener_close_error", 1)
+				}
+			}
 			cl.lifecycle("Stop")
 			cl.settle(4000)
 			releaseExec = true
 			cl.settle(4000)
-			if err := cl.lifeErr[len(cl.lifeErr)-1]; err != nil {
-				o.violate("c19:stop-failed", "Stop returned %v", err)
+			if err := cl.lifeErr[len(cl.lifeErr)-1]; err != nil && !strings.HasPrefix(listenerFault, "close-error") {
+				o.violate("c19:stop-failed", "Stop returned %v (listener fault: %q)", err, listenerFault)
 			}
 			if open := cl.N.OpenServerEnds(); len(open) > 0 {
 				modes := map[int]string{}
@@ -426,7 +448,7 @@ func init() {
 	register(&Check{
 		ID: "C19", Bubble: true, Run: runC19,
 		Runs:   map[string]int{"quick": 800, "thorough": 2400},
-		Rule:   "a case (evaluation) is one connection lifetime inside a churn run: plain and TLS ports, optional common-name rule, reference store; each run opens 30 (thorough 1500) connections in batches with up to 1..32 in flight, each ended by a drawn mode {FIN at a request boundary or inside a request (half-close/close), RST at boundary/inside, QUIT (a third of them followed by a client that keeps sending a byte every 400 ms for a simulated minute: the socket must be closed within 30 s all the same), malformed frame, write failure after the client stopped reading, TLS garbage / abort after ClientHello / untrusted certificate / certificate rejected by the rule, TLS session then close or reset, idle then close}, interleaved by the seeded scheduler; some stay idle across batches; a third of the runs end with Stop (half of them after a Start that fails because the server is running) while connections are idle, mid-request, mid-handshake, inside a handler call and blocked in a reply write; accounting (socket closed, goroutine gone, registry entry gone; idle baseline at the end) at every drain point; distinct = distinct event-log hashes of runs",
+		Rule:   "a case (evaluation) is one connection lifetime inside a churn run: plain and TLS ports, optional common-name rule, reference store; each run opens 30 (thorough 1500) connections in batches with up to 1..32 in flight, each ended by a drawn mode {FIN at a request boundary or inside a request (half-close/close), RST at boundary/inside, QUIT (a third of them followed by a client that keeps sending a byte every 400 ms for a simulated minute: the socket must be closed within 30 s all the same), malformed frame, write failure after the client stopped reading, TLS garbage / abort after ClientHello / untrusted certificate / certificate rejected by the rule, TLS session then close or reset, idle then close}, interleaved by the seeded scheduler; some stay idle across batches; a third of the runs end with Stop (half of them after a Start that fails because the server is running) while connections are idle, mid-request, mid-handshake, inside a handler call and blocked in a reply write, three in eight of them after a listener fault (accept loop dead after EMFILE; listener Close error); accounting (socket closed, goroutine gone, registry entry gone; idle baseline at the end) at every drain point; distinct = distinct event-log hashes of runs",
 		Real:   []string{"redis.Server accept loops, TLS handshake goroutine, connection loop, ConnManager, Stop", "crypto/tls"},
 		Stub:   []string{"network: simulated (descriptor count = server-side ends not yet closed; real descriptors do not exist in the simulation)", "handler: reference store"},
 		Assume: []string{"the idle baseline is the set of parked server tasks right after Start (one accept loop per enabled port)"},
